@@ -180,6 +180,11 @@ C19_Status == Full =>
         LET h == E.hops[i] IN
         /\ (h.ttl \in DOMAIN exp) => h.nat = exp[h.ttl]
         /\ (h.ttl > 0 /\ HS!HopOf(p.fs0, h.ttl).nat = "na") => h.nat = "na"
+\* the same holds in the table of the flow the round was attributed to (the registry has room: the round was
+\* registered or matched, so that flow was updated by this very round)
+C19_FlowStatus == Full /\ "fhops" \in DOMAIN E /\ E.round_flow > 0 /\ E.nflows < p.cfg.max_flows =>
+    LET exp == NatFold(Answered(p.lastRound), 1, -1, <<>>) IN
+    \A i \in 1..Len(E.fhops) : (E.fhops[i].ttl \in DOMAIN exp) => E.fhops[i].nat = exp[E.fhops[i].ttl]
 \* against simulator ground truth (single stable path, devices at the distances listed in cfg.nat_at):
 \* a responding hop is flagged exactly when a rewriting device lies between it and the previous
 \* responding hop of the round; every other configuration reports not-applicable
